@@ -168,14 +168,14 @@ class BuildReport:
         self.wall = 0.0
 
 
-def run_translator(report):
+def run_translator(report, parts=None):
     """Regenerate lean/MirGen/*.lean from REPO's working tree (content-addressed writes)."""
     try:
         from translate import regenerate
     except ImportError:
         return
     try:
-        obligations, problems = regenerate(REPO, os.path.join(LEAN, "MirGen"))
+        obligations, problems = regenerate(REPO, os.path.join(LEAN, "MirGen"), only=parts)
         report.gen_obligations = obligations
         for p in problems:
             report.ok = False
@@ -200,7 +200,7 @@ def build_and_audit(mod, tier):
     lock = open(os.path.join(WORK, "build.lock"), "w")
     fcntl.flock(lock, fcntl.LOCK_EX)
     try:
-        run_translator(report)
+        run_translator(report, list(getattr(mod, "TRANSLATOR_PARTS", [])))
         targets = ["MirModel", "MirGen", "mirdriver"] + list(mod.LEAN_MODULES)
         report.checker_cmd = "cd lean && lake build " + " ".join(targets) + \
             " && lake env lean <generated #print axioms file>"
